@@ -284,3 +284,8 @@ end C05Life
 #print axioms C05Life.rest_transfer
 #print axioms C05Life.exit_takes_subtree_under_fair_polls
 #print axioms C05Life.link_under_exiting_under_fair_polls
+#print axioms C05Life.absPc_dead
+#print axioms C05Life.ok_run
+#print axioms C05Life.Ok.run
+#print axioms C05Life.dead_quiet
+#print axioms C05Life.run_append
